@@ -54,6 +54,9 @@ TAILS = [
     ('crefrange', '@SED', '\\crefrange{ylab}{yl2}'),
     ('cref-undefined', '@SED', '\\cref{nolabel}'),
     ('cref-nosed', '\\usepackage{cleveref}\n', '\\cref{x}'),
+    # the same label is referenced again inside a (long) file read afterwards
+    ('cref-then-file', '@SED', '\\cref{ylab} and \\crefrange{ylab}{yl2} x \\LTinput{@CREFFILE}'),
+    ('cref-file-then-cref', '@SED', '\\LTinput{@CREFFILE} \\cref{ylab}'),
     ('open-inline', '', '$x'),
     ('open-display', '', '\\[x'),
     ('open-equation', '', '\\begin{equation}x'),
@@ -134,6 +137,10 @@ class C01(core.Check):
         self.gls2 = os.path.join(self.tmp, 'y2.glsdefs')
         with open(self.gls2, 'w', encoding='utf-8') as f:
             f.write(gdocs.GLSDEFS)
+        self.creffile = os.path.join(self.tmp, 'ycref.tex')
+        with open(self.creffile, 'w', encoding='utf-8') as f:
+            f.write('% padding line of a file that is longer than the document\n' * 30
+                    + 'Text \\cref{ylab} \\crefrange{ylab}{yl2}\n\\newglossaryentry{k}{name=n,description={see \\cref{ylab}}}\n')
         self.sed = os.path.join(self.tmp, 'y.sed')
         with open(self.sed, 'w', encoding='utf-8') as f:
             f.write(SED)
@@ -224,7 +231,7 @@ class C01(core.Check):
                         f.write(pad + pre)
                     pre = '\\LTinput{%s}' % fn
             head = HEADS[case['head']].replace('@EMPTY', '\\LTinput{%s}' % (self.empty if case['trail'] % 2 else self.skiponly))
-            src = pre + head + mid + cons + TRAIL[case['trail']]
+            src = pre + head + mid + cons.replace('@CREFFILE', self.creffile) + TRAIL[case['trail']]
             return src, opts, case['ml']
         if fam == 'soup':
             return case['src'], dict(case['opts']), case['ml']
